@@ -114,7 +114,7 @@ class iter_die_children:
                                 "cur_offset > die.offset"] + DIE_RI),
              1: dict(invariant=[])}
     each_yield = ["die_at(value, self, child_off(self, die.offset, $n))", "not is_null_at(self, child_off(self, die.offset, $n))",
-                  "value._parent is die"]
+                  "@check value._parent is die"]
     ensures = ["die.has_children == True or $n == 0",
                "die.has_children != True or (die._terminator is not None and die._terminator.offset == child_off(self, die.offset, $n)"
                " and is_null_at(self, child_off(self, die.offset, $n)))",
